@@ -583,9 +583,13 @@ def generate(rng, tier, index):
                                               "emit"]), "i": order[-1],
                             "level": 50, "msg": "plain"})
         history = history[:6]
+    entry = "load"
+    if not any(lg["kind"] == "eventlog" for lg in loggers) \
+            and rng.random() < 0.15:
+        entry = "configure-loggers"       # ZConfig.configureLoggers(text)
     return {"prop": ID, "tag": tag,
             "epoch": float(rng.randint(1500000000, 1900000000)),
-            "loggers": loggers, "ops": history}
+            "loggers": loggers, "ops": history, "entry": entry}
 
 
 # ---------------------------------------------------------------------------
@@ -689,6 +693,23 @@ def execute(plan):
     return out
 
 
+class _Shim:
+    """Stands in for a logger factory after ZConfig.configureLoggers(), which
+    keeps none: 'calling the factory again' is looking the logger up again."""
+
+    def __init__(self, name):
+        self.name = name
+
+    def __call__(self):
+        return logging.getLogger(self.name)
+
+    def reopen(self):
+        for h in self().handlers:
+            r = getattr(h, "reopen", None)
+            if callable(r):
+                r()
+
+
 _SCHEMA_CACHE = []
 
 
@@ -748,7 +769,14 @@ def _execute(plan, out, scratch, w, clock, recs):
     w.begin_op("load-config")
     box = [None]
 
+    configure = plan.get("entry") == "configure-loggers"
+
     def do_load():
+        if configure:
+            # the convenience entry point: loads with its own schema and
+            # calls every logger factory, in order
+            ZConfig.configureLoggers(text)
+            return {"ok": True}
         cfg, _h = ZConfig.loader.loadConfigFile(so["schema"],
                                                 io.StringIO(text))
         box[0] = cfg
@@ -787,11 +815,16 @@ def _execute(plan, out, scratch, w, clock, recs):
     # factories in section order: loggers keep their relative order, the
     # eventlog is a separate attribute
     factories = []
-    it = iter(cfg.loggers)
-    for lg in plan["loggers"]:
-        factories.append(cfg.eventlog if lg["kind"] == "eventlog"
-                         else next(it))
-    del it, cfg
+    if configure:
+        probe("configureLoggers-entry")
+        factories = [_Shim(lg["name"]) for lg in plan["loggers"]]
+    else:
+        it = iter(cfg.loggers)
+        for lg in plan["loggers"]:
+            factories.append(cfg.eventlog if lg["kind"] == "eventlog"
+                             else next(it))
+        del it
+    del cfg
     created = [False] * len(factories)
     called = False
     dropped = set()
@@ -996,6 +1029,10 @@ def _execute(plan, out, scratch, w, clock, recs):
         n2 = again = None
         return logger
 
+    if configure:
+        # configureLoggers has already called every factory
+        for i in range(len(factories)):
+            ensure_created(i, None, "call")
     check_registry(None, "load")
     for step, op in enumerate(plan["ops"]):
         kind = op["op"]
